@@ -18,13 +18,13 @@ from .choices import Choices
 from .execute import Rec, _LoadProbe, execute, meta_tuple, quiet_logger, restore_logger
 from .props import Check, compact_spec, gen_s1, result_record
 from .spec import SCALARS, Built, Ref, gen_dag, tree_refs
-from .tasklib import TYPE_INFO, LocalFsspecStorage, MemFsspecStorage, Value, get_type
+from .tasklib import TYPE_INFO, LocalFsspecStorage, MemFsspecStorage, Value, canon, get_type
 
 RICH_SCALARS = [
     ['s', 'str', ''], ['s', 'str', 'ünï©ødé ✓ 漢字'], ['s', 'str', '{"a": [1, "\\""], "_is_task": true}'], ['s', 'str', 'line\nbreak\ttab'],
     ['s', 'int', 10 ** 30], ['s', 'int', -17], ['s', 'int', 0], ['s', 'float', 1.5], ['s', 'float', 'inf'], ['s', 'float', '-inf'],
     ['s', 'float', 1e-300], ['s', 'none', None], ['s', 'bool', False], ['s', 'enum', ['Color', 'BLUE']], ['s', 'enum', ['Mode', 'FAST']],
-    ['s', 'str', 'pickle__TA__0000'], ['s', 'float', 2.0],
+    ['s', 'str', 'pickle__TA__0000'], ['s', 'float', 2.0], ['s', 'enum', ['Level', 'HIGH']], ['s', 'enum', ['Kind', 'IRIS']],
 ]
 RICH_KEYS = ['k', 'key with space', 'ü', 'a.b', 'Z', 'z', '0']
 
@@ -278,6 +278,9 @@ class HistoryCheck(Check):
                     history.append(['probe-run'])
                     probes['op-probe'] = 1
                     vs += self.probe_run(ref, model, lab(), step, provider)
+                    if not vs and provider != 'none' and ops.chance(1, 2):
+                        probes['op-numeric-twins'] = 1
+                        vs += self.numeric_twins(lab(), step, provider)
                 else:
                     history.append(['cached_tasks-subset'])
                 # observations after every operation
@@ -351,8 +354,8 @@ class HistoryCheck(Check):
         for t in listed:
             ident = getattr(t, 'ident', None)
             orig = originals.get(ident, 1) if ident in ref.nodes else None
-            if orig is None or not (t == orig):
-                vs.append(O.V(self.id, 'reconstructed-differs', f'{where}: cached_tasks returned {t!r:.300}, which equals no cached task '
+            if orig is None or not (t == orig) or canon(t) != canon(orig):
+                vs.append(O.V(self.id, 'reconstructed-differs', f'{where}: cached_tasks returned {t!r:.300}, which equals no cached task (value by value, type by type) '
                               f'(original of node {ident}: {orig!r:.300})', provider=provider, type=type(t).__name__))
                 return vs
             got_nodes.append(ident)
@@ -373,6 +376,42 @@ class HistoryCheck(Check):
         probes['observations'] = probes.get('observations', 0) + 1
         if listed:
             probes['listed-tasks'] = probes.get('listed-tasks', 0) + len(listed)
+        return vs
+
+    def numeric_twins(self, lab, step, provider) -> list:
+        """Tasks whose parameters are equal for Python (1 == True == 1.0) but are different values: cached
+        one by one they are three entries, and cached_tasks lists three tasks."""
+        from labtech.runners import SerialRunnerBackend
+        TA = get_type('TA')
+        twins = [TA(ident=9001, tag='twin', deps=(), opt=x) for x in (1, True, 1.0)]
+        keys = {t.cache_key for t in twins}
+        if len(keys) != 3:
+            return [O.V(self.id, 'twin-keys-collide', f'step {step}: TA(opt=1), TA(opt=True), TA(opt=1.0) have cache keys {sorted(keys)}',
+                        provider=provider)]
+        old = probe_mod.ACTIVE
+        probe_mod.set_active(probe_mod.NullProbe())
+        try:
+            lab.runner_backend = SerialRunnerBackend()
+            try:
+                for t in twins:
+                    lab.run_task(t, disable_progress=True, disable_top=True)
+                listed = [t for t in lab.cached_tasks([TA]) if t.ident == 9001]
+                lab.uncache_tasks(twins)
+                left = [t for t in lab.cached_tasks([TA]) if t.ident == 9001]
+            except Exception as ex:
+                return [O.V(self.id, 'twin-probe-failed', f'step {step}: {type(ex).__name__}: {str(ex)[:200]}', provider=provider)]
+        finally:
+            probe_mod.set_active(old)
+        vs = []
+        got = sorted(canon(t.opt) for t in listed)
+        want = sorted(canon(t.opt) for t in twins)
+        if got != want:
+            vs.append(O.V(self.id, 'cached_tasks-set', f'step {step}: TA(opt=1), TA(opt=True) and TA(opt=1.0) were cached one by one; '
+                          f'cached_tasks lists opt values {got}, expected {want}', provider=provider, twins=True,
+                          missing=len(got) < 3, extra=len(got) > 3, duplicate=len(got) != len(set(got))))
+        if left:
+            vs.append(O.V(self.id, 'is_cached-differs', f'step {step}: after uncache_tasks of the three twins {len(left)} of them are still '
+                          f'listed by cached_tasks', provider=provider, twins=True, got=True, cacheable=True))
         return vs
 
     def probe_run(self, ref, model, lab, step, provider) -> list:
